@@ -8,6 +8,7 @@ The header generator is arbitrary: whatever `createHeader` returned is the block
 -/
 import ReuseVerif.Lemmas.Splice
 import ReuseVerif.Lemmas.FirstLine
+import ReuseVerif.Lemmas.C08FirstLineOld
 namespace C08
 open Py Model Spec C08L C10L
 
@@ -273,6 +274,43 @@ theorem C08_first_line_replace_new {c : HdrCfg} {info : Extracted} {t out sb : T
   have hpre := extractShebang_starts hne hnbk hst
   exact ⟨_, _, (extractShebang_append sb t).symm, hpre, placed_first _ hout hpre hnb⟩
 
+/-- **Shebang stays first, replacing mode, a header already in the file.**  For every style of the table, every
+    text whose only line boundary is `\n`: when the text starts with one of the style's first-line markers (`sb`,
+    the first that fits) and `_find_first_spdx_comment` finds a block, then `t = sbl ++ rest`, `sbl` starts with
+    `sb`, and the output starts with `rstrip sbl ++ "\n\n"`.  Two situations: the old block stands below other text
+    — then `sbl` is everything above it, which begins with the marker line (white space above a block cannot hold
+    the marker, so the text above is not blank and the shebang loop does nothing); or the old block stands at the
+    top and the marker line is *inside* it (`#!/bin/sh` directly followed by `# SPDX-…` in the Python style) —
+    then the loop picks the first marker the block starts with, which is `sb`, and `sbl` is the block's leading
+    marker lines, moved out of the block and kept first.  (`NoExoticBreaks`: with a form feed inside the block
+    the marker lines moved out are not a substring of the text — the break is rewritten to `\n`.) -/
+theorem C08_first_line_replace_old {c : HdrCfg} {info : Extracted} {t out sb b0 h0 a0 : Text}
+    (hs : c.style ∈ Generated.styles) (hstyle : (c.style.name == "EmptyCommentStyle") = false)
+    (hno : NoExoticBreaks t) (h : findAndReplaceHeader c info t = .ok out)
+    (hsome : findFirstSpdxComment c t = some (b0, h0, a0))
+    (hf : c.style.shebangs.find? (startsWith t ·) = some sb) :
+    ∃ sbl rest, t = sbl ++ rest ∧ sb <+: sbl ∧ (rstrip sbl ++ ['\n', '\n']) <+: out := by
+  obtain ⟨hdr, _, hout⟩ := C08_replace_sections h
+  have hsec : replaceSections c t = moveShebang c.style.shebangs b0 h0 a0 := by
+    unfold replaceSections
+    simp only [hsome, hstyle, Bool.false_eq_true, if_false]
+  rw [hsec] at hout
+  rw [hout]
+  exact first_line_old hno hsome (C08_shebang_table _ hs) hf hdr
+
+/-- **Shebang stays first, replacing mode** (with or without a header in the file): `C08_first_line_replace_new`
+    and `C08_first_line_replace_old` together. -/
+theorem C08_first_line_replace {c : HdrCfg} {info : Extracted} {t out sb : Text}
+    (hs : c.style ∈ Generated.styles) (hstyle : (c.style.name == "EmptyCommentStyle") = false)
+    (hno : NoExoticBreaks t) (h : findAndReplaceHeader c info t = .ok out)
+    (hf : c.style.shebangs.find? (startsWith t ·) = some sb) :
+    ∃ sbl rest, t = sbl ++ rest ∧ sb <+: sbl ∧ (rstrip sbl ++ ['\n', '\n']) <+: out := by
+  cases hfound : findFirstSpdxComment c t with
+  | none => exact C08_first_line_replace_new hs hstyle h hfound hf
+  | some x =>
+    obtain ⟨b0, h0, a0⟩ := x
+    exact C08_first_line_replace_old hs hstyle hno h hfound hf
+
 /-! ### non-vacuity: the hypotheses are satisfiable, the relation is not trivial
 
 (That `findAndReplaceHeader … = .ok out` is satisfiable is shown on every run by the correspondence streams —
@@ -287,6 +325,13 @@ example : placeHeader "# h".toList "#!/bin/sh  \n".toList "x = 1\n".toList false
 example : placeHeader "# h".toList " \n".toList "\nx = 1".toList true = "# h\n\nx = 1".toList := by decide
 example : SpliceAt "# h".toList "#!/bin/sh  \n".toList "x = 1\n".toList "#!/bin/sh\n\n# h\n\nx = 1\n".toList :=
   placeHeader_spliceAt "# h".toList "#!/bin/sh  \n".toList "x = 1\n".toList false
+/-- the two situations of `C08_first_line_replace_old`: marker line inside the old block at the top (moved out, kept
+    first), and marker line above the old block (nothing moved) -/
+example : moveShebang ["#!".toList] [] "#!/bin/sh\n# SPDX-License-Identifier: MIT\n".toList "x\n".toList =
+    ("#!/bin/sh\n".toList, "# SPDX-License-Identifier: MIT\n".toList, "x\n".toList) := by decide +kernel
+example : moveShebang ["#!".toList] "#!/bin/sh\n\n".toList "# SPDX-License-Identifier: MIT\n".toList "x\n".toList =
+    ("#!/bin/sh\n\n".toList, "# SPDX-License-Identifier: MIT\n".toList, "x\n".toList) := by decide +kernel
+example : placeHeader "# h".toList "#!/bin/sh\n".toList "x\n".toList true = "#!/bin/sh\n\n# h\nx\n".toList := by decide +kernel
 /-- the relation excludes something: text below the header cannot lose a character -/
 example : ¬ Below "x = 1\n".toList "x = 1".toList := by
   intro h; cases h
